@@ -99,6 +99,20 @@ CLAIMED["C13"] = dict(
          "line break is dropped by preparse (the formatter compensates); trivia attachment is not judged for texts of that class.",
     technique="TLC-enumerated inputs; trace validation of the real lexer/parser output against a TLA+ lexer/CST specification",
 )
+CLAIMED["C04"] = dict(
+    category="model_checking",
+    text="LexGen.tla makes TLC enumerate every token sequence up to a length bound over the token-class alphabet (each rendered "
+         "with three separator choices); every text is handed to tokenize, parse_to_expr, the language server's analyze_source, "
+         "emit_bytecode and emit_wasm, each call in a thread with a 2 MiB stack and a time limit. FrontendTrace.tla is the "
+         "contract: a call returns ok or diagnostics whose spans lie inside the text on character boundaries; there is no "
+         "action for panic, abort or timeout. Prefixes and mutations of shipped programs, token soups and bracket nesting up "
+         "to the stated bound of 48 go through the same trace specification.",
+    design_ref="DESIGN.md §6 C04",
+    note="The specification is a contract, not a design model (stated in DESIGN.md). The corpus is derived deterministically "
+         "(independent of VERIF_SEED) because several classes of texts fail on the pinned tree and are pinned by their specific "
+         "text (cyclic type in the checker -> stack overflow; builtin name as last statement; -{}; | | self; non-ASCII spans).",
+    technique="TLC-enumerated token sequences; trace validation of call/return events against a TLA+ contract",
+)
 NOT_YET = {}
 
 checks = []
